@@ -35,7 +35,7 @@ def rand_layout_desc(rng, pool):
     """a description (plain data) of a layout: dict name->grid index etc."""
     names = rng.sample(NAMES, rng.randrange(0, 4))
     static = {n: rng.randrange(len(pool)) for n in names}
-    sp_names = rng.sample(["s", "t"], rng.randrange(0, 3))
+    sp_names = rng.sample(["s", "t"] + NAMES, rng.randrange(0, 3))
     special = {n: rng.randrange(len(pool)) for n in sp_names}
     pick = lambda: sorted(rng.sample(NAMES, rng.randrange(0, 3)))  # noqa: E731
     return {"static": static, "fillable": pick(), "cz": pick(), "local": pick(), "special": special}
@@ -44,7 +44,18 @@ def rand_layout_desc(rng, pool):
 def mutate_desc(rng, d, pool):
     import copy
     d = copy.deepcopy(d)
-    k = rng.choice(["static", "fillable", "cz", "local", "special", "none", "order"])
+    k = rng.choice(["static", "fillable", "cz", "local", "special", "none", "order", "move", "move"])
+    if k == "move":
+        # the same (name, grid) pair changes table: static <-> special
+        if d["static"] and (not d["special"] or rng.random() < 0.5):
+            n = rng.choice(sorted(d["static"]))
+            if n not in d["special"]:
+                d["special"][n] = d["static"].pop(n)
+        elif d["special"]:
+            n = rng.choice(sorted(d["special"]))
+            if n not in d["static"]:
+                d["static"][n] = d["special"].pop(n)
+        return d
     if k == "static":
         d["static"][rng.choice(NAMES)] = rng.randrange(len(pool))
     elif k == "special":
@@ -113,8 +124,9 @@ def check_layout_object(ctx, l, case, accepted_hint=True):
     # index coherence: every zone's grid maps to a name that maps back to that grid
     for n, z in itertools.chain(l.static_traps.items(), l.special_grid.items()):
         zid = l.get_zone_id(z)
-        back = l.static_traps.get(zid, l.special_grid.get(zid)) if zid is not None else None
-        if zid is None or back is None or back != z:
+        # a name may be used in both tables; it maps back if either table gives that grid
+        backs = [] if zid is None else [t[zid] for t in (l.static_traps, l.special_grid) if zid in t]
+        if zid is None or not any(b == z for b in backs):
             ctx.fail(case, f"zone index incoherent: get_zone_id(grid of '{n}') = {zid!r} does not map back to that grid",
                      key=case.get("key"))
             break
